@@ -8,6 +8,7 @@
               encoded without loss (64-bit integers as sign + 16 hexadecimal digits, texts as
               character sequences, camera ids as decimal text)
      pred   - "accept" / "reject" (layer 1 of ConfValidate.tla) or "none" (shape classes)
+     rep, firstOk, firstErr, firstFailed, sameAsFirst - history runs: the step repeats an input of the same process
    TLC evaluates the statement on every record: no crash, no panic, and a returned
    configuration satisfies every constraint named by the statement (SatObs).
    A difference from layer 1's prediction is reported as DRIFT (never a verdict).           *)
@@ -69,7 +70,17 @@ ConfOK(cf, mon) ==
                 (i # j /\ cf.paths[i].source = "rpiCamera" /\ cf.paths[j].source = "rpiCamera"
                  /\ ~cf.paths[i].secondary /\ ~cf.paths[j].secondary) => cf.paths[i].camID # cf.paths[j].camID
 
+\* history independence: rep marks a step that submits an input the same process has been given before
+\* (ConfValidate!HistoryPattern); first* is what the first submission got. Same input => same verdict
+\* (and, when accepted, the same constraint-relevant values).
+HistoryIndependent(r) ==
+    (r.rep /\ ~r.crash /\ ~r.panic /\ ~r.firstFailed) =>
+        /\ r.ok = r.firstOk
+        /\ r.err = r.firstErr
+        /\ r.ok => r.sameAsFirst
+
 RecVerdict(r, ln) ==
+    /\ Monitor(HistoryIndependent(r), [l |-> ln, id |-> r.id, monitor |-> "HistoryIndependent"])
     /\ Monitor(~r.crash, [l |-> ln, id |-> r.id, monitor |-> "NoCrash"])
     /\ Monitor(~r.panic, [l |-> ln, id |-> r.id, monitor |-> "NoPanic"])
     /\ r.ok =>
